@@ -110,6 +110,24 @@ def check(case):
     if ga != gb:
         return f"one-frame scene counts ground truths {gb}, the frame itself {ga}"
     sc = mgr.get_scene_result()
+    # the scene score is the score of ALL the frames' results ranked together (one list per label), whatever frame each came from
+    from perception_eval.evaluation.matching.objects_filter import divide_objects, divide_objects_to_num
+    from perception_eval.evaluation.metrics.metrics import MetricsScore
+    labs = ev.target_labels
+    flat = {l: [] for l in labs}
+    ngt = {l: 0 for l in labs}
+    for r in mgr.frame_results:
+        d = divide_objects(r.object_results, labs)
+        g = divide_objects_to_num(r.frame_ground_truth.objects, labs)
+        for l in labs:
+            flat[l] += d[l]
+            ngt[l] += g[l]
+    ms = MetricsScore(ev.metrics_config, used_frame=[int(r.frame_name) for r in mgr.frame_results])
+    ms.evaluate_detection(flat, ngt)
+    for m_scene, m_flat in zip(sc.maps, ms.maps):
+        for a, b in zip(list(m_scene.aps) + list(m_scene.aphs), list(m_flat.aps) + list(m_flat.aphs)):
+            if a.ap != b.ap and abs(a.ap - b.ap) > 1e-12:
+                return (f"scene {type(a.tp_metrics).__name__} score of {[str(t) for t in a.target_labels]} ({m_scene.matching_mode}) is {a.ap}; the same results ranked together as one list score {b.ap}")
     want = sum(1 for r in mgr.frame_results for o in r.frame_ground_truth.objects if o.semantic_label.label.value in targets)
     for m in sc.maps:
         got = sum(a.num_ground_truth for a in m.aps)
